@@ -7,7 +7,7 @@ import common as C
 from props import qtycommon as Q
 
 ID = "C03"
-COQ_TARGETS = ["Properties/C03.vo", "GenFacts/ResolutionFacts.vo"]
+COQ_TARGETS = ["Properties/C03.vo", "GenFacts/ResolutionFacts.vo", "GenFacts/UnitsSrcFacts.vo"]
 EXTRA_OBLIGATIONS = ["resolution_facts_true"]
 MODEL_TARGETS = ["Model/Qty.vo"]
 
